@@ -27,9 +27,9 @@ CHECKS = {
     "C04": dict(cat="other", ref="DESIGN.md §4 C04, §11", technique="E1: CrossHair symbolic execution of the real receiver-thread body over a stream cut at a symbolic byte offset with symbolic read chunking (Popen2IO and SocketIO); E2: bounded model checking (z3) of the receiver thread's end-of-connection epilogue racing user threads blocked in receive()/waitclose() or inside setcallback(), counterexamples replayed on the real classes",
                 text="Bounded symbolic check over every cut offset of enumerated frame histories: delivered items are exactly the complete frames, then EOFError everywhere, endmarker once, gateway refuses further use; plus bounded model checking over all schedules of 2-3 blocked receivers, a waitclose caller and a setcallback caller against the connection-loss epilogue.",
                 note=E1_NOTE + "; E2 part trusts the translator (validated per run against the real classes), the queue/table models stated in the evidence and z3"),
-    "C07": dict(cat="other", ref="DESIGN.md §4 C07", technique="CrossHair symbolic execution of the callback-error and remote-body-error paths over scripted frame histories (symbolic failure position, channel alive/dropped)",
-                text="Bounded symbolic check of failure histories on both sides of a channel; schedules with concurrently active user threads are outside this check.",
-                note=E1_NOTE + "; receiver thread bodies run synchronously (no interleaving with user threads)"),
+    "C07": dict(cat="other", ref="DESIGN.md §4 C07, §11", technique="E1: CrossHair symbolic execution of the callback-error and remote-body-error paths over scripted frame histories (symbolic failure position, channel alive/dropped); E2: bounded model checking (z3) of a raising callback in the receiver thread racing a waitclose() caller, counterexamples replayed on the real classes",
+                text="Bounded symbolic check of failure histories on both sides of a channel, plus bounded model checking over all schedules of the receiver thread's callback-failure path against a user thread waiting on the failing side's channel.",
+                note=E1_NOTE + "; E2 part trusts the translator (validated per run against the real classes), the queue/table models stated in the evidence and z3"),
     "C10": dict(cat="other", ref="DESIGN.md §4 C10, §11", technique="E1: CrossHair symbolic execution of setcallback hand-over and endmarker logic over frame histories with a symbolic setcallback position; E2: bounded model checking (z3) of setcallback racing the receiver thread's handlers and its end-of-connection epilogue, counterexamples replayed on the real classes",
                 text="Bounded symbolic check over all positions of setcallback in enumerated histories, plus bounded model checking over all schedules (single shared accesses) of a user thread's setcallback against the receiver thread delivering items and ending the channel by close / last-message / close-error / connection loss.",
                 note=E1_NOTE + "; E2 part trusts the translator (validated per run), the queue/map/lock/event models and z3"),
